@@ -387,11 +387,25 @@ def run_cases(chk, cases):
             e2e.append((t[0], "e2e", [ord(ch) for ch in pre] + lit + [ord(ch) for ch in post] + lit, "TRUE"))
         else:
             e2e.append((t[0], "e2e", [ord(ch) for ch in pre] + lit + [ord(ch) for ch in post], t[3]))
-    for cmd in ("e2e", "parse"):
+    # long literals in program FILES: characters that sit at (or straddle) the 4096-byte blocks the file is read in — U+FEFF,
+    # astral and CJK characters, line breaks — are part of the literal like anywhere else
+    file_cases = []
+    head = len("输出“".encode("utf8"))
+    for blk in (4096, 8192):
+        for delta in (-4, -3, -2, -1, 0, 1):
+            for ch in ("\ufeff", "\U0001F600", "乙", "\n", "é"):
+                pad = blk - head + delta
+                text = "a" * pad + ch + "尾"
+                file_cases.append(text)
+    rng_file = random.Random(len(file_cases))
+    chosen = [t for t in file_cases if "\ufeff" in t] + rng_file.sample([t for t in file_cases if "\ufeff" not in t], 8)
+    for text in chosen:
+        e2e.append((0, "e2efile", [ord(c) for c in "输出“" + text + "”"], [ord(c) for c in text]))
+    for cmd in ("e2e", "parse", "e2efile"):
         batch = [t for t in e2e if t[1] == cmd]
         if not batch:
             continue
-        outs = core.harness("c13", cmd, [{"src": t[2]} for t in batch])
+        outs = core.harness("c13", "e2e" if cmd == "e2efile" else cmd, [dict({"src": t[2]}, **({"file": True} if cmd == "e2efile" else {})) for t in batch])
         for (i, _, prog, exp), o in zip(batch, outs):
             chk.count([cmd, prog])
             chk.dist("e2e:" + cmd)
@@ -404,7 +418,7 @@ def run_cases(chk, cases):
                 good = o.get("kind") == "value" and o.get("value") == {"t": "bool", "v": True}
                 what = "a literal compared with itself yields %s, expected 真" % json.dumps(o, ensure_ascii=False)[:160]
                 sig = "e2e:self-comparison"
-            elif cmd == "e2e":
+            elif cmd in ("e2e", "e2efile"):
                 good = o.get("kind") == "value" and o.get("str") == exp
                 what = "输出‹literal› yields %s, expected text %s" % (
                     show(o["str"])[:80] if "str" in o else json.dumps(o, ensure_ascii=False)[:160], show(exp)[:80])
@@ -428,6 +442,12 @@ def run(chk, replay=None):
     if replay is not None:
         if replay.get("kind") in ("lex", "enc"):
             run_cases(chk, [dict(replay["case"], gen="replay")])
+        elif replay.get("kind") == "e2efile":
+            o = core.harness("c13", "e2e", [{"src": replay["prog"], "file": True}])[0]
+            chk.count(["e2efile", replay["prog"]])
+            if not (o.get("kind") == "value" and o.get("str") == replay.get("expected")):
+                chk.violation("a literal in a program file does not read back: %s" % json.dumps(o, ensure_ascii=False)[:200], "e2e:value",
+                              dict(replay, observed=o))
         elif replay.get("kind") in ("e2e", "parse"):
             run_cases(chk, [dict(replay["case"], gen="replay")])
         else:
